@@ -21,7 +21,7 @@ Proof.
     unfold lift0 in H. cbn [w_dst dstw] in H. rewrite writeRaw_seg0 in H by lia. cbn [bind] in H.
     apply Ok_inj in H. subst w'.
     pose proof (den_null_iff _ _ _ _ _ _ D0) as Hn. rewrite Hv in Hn. destruct v; try discriminate.
-    exists 0, [], cap, rl. rewrite !app_nil_r. split; [reflexivity|]. split; [split; assumption|].
+    exists 0, [], cap, rl. rewrite !app_nil_r. split; [reflexivity|]. split; [split; assumption|]. split; [constructor|].
     intros pre' tail Lp Hw Hbound. cbn [app] in *.
     apply reads_null; try (rewrite zlen_app in *; unfold zlen in *; lia).
     unfold word_is in *. rewrite sub_app_l by lia. exact Hw. }
@@ -53,7 +53,7 @@ Proof.
     assert (Ews : ws = []) by (destruct ws; [reflexivity|cbn [length] in Ebw; unfold zlen in Ld; lia]).
     assert (Evs : vs = []) by (destruct vs; [reflexivity|unfold zlen in Lvs; cbn [length] in Lvs; lia]).
     rewrite Ews, Evs.
-    exists w0, [], cap, rl. rewrite !app_nil_r. split; [reflexivity|]. split; [split; assumption|].
+    exists w0, [], cap, rl. rewrite !app_nil_r. split; [reflexivity|]. split; [split; assumption|]. split; [constructor|].
     intros pre' tail Lp Hw Hbound. cbn [app] in *.
     assert (Hw' : word_is (pre' ++ tail) a w0) by (unfold word_is in *; rewrite sub_app_l by lia; exact Hw).
     exists 1, 0, (mkPtr true 0 a 0 (mkOS 0 0) (uint_dec 1) KStruct false false false), 0.
@@ -83,7 +83,7 @@ Proof.
     assert (Hdst : dst_at dstp (zlen D) dn pn) by (unfold dst_at, dstp; cbn; repeat split; reflexivity).
     assert (Bdn : 0 <= dn <= 65535) by (unfold dn; lia). assert (Bpn : 0 <= pn < 65536) by (unfold pn; lia).
     destruct (HC D1 cap1 rl dstp src ws vs (zlen D) dn pn w2 ltac:(split; lia) Hdst Z0 Hi1 Bdn Bpn ltac:(lia)
-                 Hv Hk Hwf Hal D0 Hsd Ec) as (pwords & kids & cap2 & rl2 & Lp & -> & Hinv2 & PostC).
+                 Hv Hk Hwf Hal D0 Hsd Ec) as (pwords & kids & cap2 & rl2 & Lp & -> & Hinv2 & Bk & PostC).
     assert (Edw : resize_words ws (Z.to_nat dn) = ws).
     { replace (Z.to_nat dn) with (length ws) by (unfold zlen in Ld; lia). apply resize_words_id. }
     rewrite Edw in *.
@@ -110,6 +110,7 @@ Proof.
       rewrite <- app_assoc. apply put_word_app_left; lia. }
     split.
     { unfold hinv in *. rewrite !zlen_app in *. rewrite L1 in Hinv2. rewrite Lbb. lia. }
+    split; [apply Forall_app; split; [apply bow_bytes_ok|exact Bk]|].
     intros pre' tail Lp' Hw Hbound.
     set (M := pre' ++ (bytes_of_words blk ++ kids) ++ tail) in *.
     assert (LM : zlen M = zlen D + (8 * dn + 8 * pn) + zlen kids + zlen tail)
@@ -160,15 +161,18 @@ Theorem copy_value_ptr : forall m f D cap rl a src v fc w',
   msg_ok m -> hinv D -> 0 <= a -> a mod 8 = 0 -> a + 8 <= zlen D ->
   wf_ptr m src -> aligned src -> caligned src -> ctag_ok m src -> den true m 0 [] src v -> cvdom v = true ->
   write_ptr f true (dstw D cap m rl) 0 a InSrc src fc = Ok w' ->
-  exists D' cap' rl', w' = dstw D' cap' m rl' /\ hinv D' /\ reads_as D' a v.
+  exists D' cap' rl', w' = dstw D' cap' m rl' /\ hinv D' /\ (bytes_ok D -> bytes_ok D') /\ reads_as D' a v.
 Proof.
   intros m f D cap rl a src v fc w' Hm Hi Ha Ham Hab Hwf Hal Hcal Hctg D0 Hsd H.
   destruct (P_all m Hm f) as [HW _].
-  destruct (HW D cap rl a src v fc w' Hi Ha Ham Hab Hwf Hal Hcal Hctg D0 Hsd H) as (word & body & cap' & rl' & -> & Hinv & Post).
+  destruct (HW D cap rl a src v fc w' Hi Ha Ham Hab Hwf Hal Hcal Hctg D0 Hsd H) as (word & body & cap' & rl' & -> & Hinv & Bb & Post).
   assert (Lp : zlen (put_word D a word) = zlen D) by (apply put_word_length; lia).
   exists (put_word D a word ++ body), cap', rl'. split; [reflexivity|].
   assert (Hinv' : hinv (put_word D a word ++ body)) by (unfold hinv in *; rewrite zlen_app in *; rewrite Lp; exact Hinv).
   split; [exact Hinv'|].
+  split.
+  { intros HbD. apply Forall_app. split; [|exact Bb]. unfold put_word. apply Forall_app. split; [apply Forall_firstn'; exact HbD|].
+    apply Forall_app. split; [apply le_encode_bytes|apply Forall_skipn'; exact HbD]. }
   specialize (Post (put_word D a word) [] Lp). rewrite app_nil_r in Post. apply Post.
   - unfold word_is, put_word, sub. rewrite skipn_app, skipn_all2 by (rewrite firstn_length; unfold zlen in *; lia).
     rewrite firstn_length. replace (Z.to_nat a - Nat.min (Z.to_nat a) (length D))%nat with 0%nat by (unfold zlen in *; lia).
@@ -186,19 +190,22 @@ Theorem copy_value_struct : forall m f D cap rl dst s ws vs A dn pn w',
   p_valid s = true -> p_kind s = KStruct -> wf_ptr m s -> aligned s ->
   den true m 0 [] s (VStruct ws vs) -> forallb cvdom vs = true ->
   copy_struct f true (dstw D cap m rl) dst InSrc s = Ok w' ->
-  exists D' cap' rl', w' = dstw D' cap' m rl' /\ hinv D' /\
+  exists D' cap' rl', w' = dstw D' cap' m rl' /\ hinv D' /\ (bytes_ok D -> bytes_ok D') /\
     forall mid caps, den true [D'] mid caps dst (resize (VStruct ws vs) (Z.to_nat dn) (Z.to_nat pn)).
 Proof.
   intros m f D cap rl dst s ws vs A dn pn w' Hm Hi Hdst Hkd HA HAm Hdn Hpn Hb Hv Hk Hwf Hal D0 Hsd H.
   destruct (P_all m Hm f) as [_ HC].
   destruct (HC D cap rl dst s ws vs A dn pn w' Hi Hdst HA HAm Hdn Hpn Hb Hv Hk Hwf Hal D0 Hsd H)
-    as (pwords & kids & cap' & rl' & Lp & -> & Hinv & Post).
+    as (pwords & kids & cap' & rl' & Lp & -> & Hinv & Bk & Post).
   set (blk := resize_words ws (Z.to_nat dn) ++ pwords) in *.
   assert (Lblk : zlen blk = dn + pn) by (unfold blk; rewrite zlen_app; unfold zlen; rewrite resize_words_length; unfold zlen in Lp; lia).
   assert (Ls : zlen (set_slots D A blk) = zlen D) by (apply set_slots_length; [lia|unfold zlen in *; lia]).
   exists (set_slots D A blk ++ kids), cap', rl'. split; [reflexivity|].
   assert (Hinv' : hinv (set_slots D A blk ++ kids)) by (unfold hinv in *; rewrite zlen_app in *; rewrite Ls; exact Hinv).
   split; [exact Hinv'|].
+  split.
+  { intros HbD. apply Forall_app. split; [|exact Bk]. unfold set_slots. apply Forall_app. split; [apply Forall_firstn'; exact HbD|].
+    apply Forall_app. split; [apply bow_bytes_ok|apply Forall_skipn'; exact HbD]. }
   assert (Hsub : sub (set_slots D A blk) A (8 * (dn + pn)) = bytes_of_words blk).
   { rewrite <- Lblk. apply sub_set_slots; [lia|unfold zlen in *; lia]. }
   specialize (Post (set_slots D A blk) [] Ls Hsub). rewrite app_nil_r in Post.
